@@ -458,6 +458,12 @@ def run_impl(cassis, sc):
     base_bytes = xmlabs.write(base)
     vdoc, vbytes = variant_doc(schema, base, sc["var"])
     from io import BytesIO
+    if sc["src"].get("expect"):                       # a document the strict reader must refuse
+        try:
+            cassis.load_cas_from_xmi(BytesIO(vbytes), typesystem=ts)
+            return {"error": None}
+        except Exception as e:  # noqa: the kind is the observation
+            return {"error": type(e).__name__}
     loaded = cassis.load_cas_from_xmi(BytesIO(vbytes), typesystem=ts)
     obs = scen.canon(loaded, "xmi")
     base_loaded = cassis.load_cas_from_xmi(BytesIO(base_bytes), typesystem=ts)
@@ -472,6 +478,10 @@ def _norm(c):
 
 
 def oracle(cassis, sc, obs):
+    if sc["src"].get("expect"):
+        if obs["error"] != sc["src"]["expect"]:
+            return "a document with an element of an undefined type was not refused with %s: %s" % (sc["src"]["expect"], obs["error"])
+        return None
     a, b = _norm(obs["canon"]), _norm(obs["base"])
     # (1) what the variant document says, read independently (closed documents only: every fixture but one)
     schema = {n: {"anc": v["anc"], "feats": [tuple(f) for f in v["feats"]]} for n, v in obs["schema"].items()}
@@ -503,6 +513,8 @@ def oracle(cassis, sc, obs):
 
 
 def render(sc, obs):
+    if "error" in obs:          # refused documents are compared with the model in C17
+        return None
     schema = {n: {"anc": v["anc"], "feats": [tuple(f) for f in v["feats"]]} for n, v in obs["schema"].items()}
     flts = glist(["(%s, %s)" % (gstr(k), gstr(v)) for k, v in sorted(obs["flts"].items())])
     return "mkCase\n %s\n %s\n %s\n (%s)" % (scen.g_schema(schema), xmlabs.g_xdoc(obs["doc"]), flts,
@@ -576,6 +588,10 @@ def hand_sources():
                  _el(NS_CAS, "View", [["sofa", "3"], ["members", "9"]])])
     for d in docs:
         out.append({"kind": "hand", "tspec": tspec, "doc": d})
+    # an element of an undefined no-namespace type whose short name is the short name of a defined type: not loadable
+    out.append({"kind": "hand", "tspec": tspec, "expect": "TypeNotFoundError",
+                "doc": [null, sofa1, _el("http:///uima/noNamespace.ecore", "F", [["xmi:id", "7"]]),
+                        _el(NS_CAS, "View", [["sofa", "1"], ["members", "7"]])]})
     return out
 
 
@@ -667,10 +683,28 @@ def distribution(scenarios, observations):
         for k, v in s["var"].items():
             if k != "seed" and v:
                 knobs["%s=%s" % (k, v)] = knobs.get("%s=%s" % (k, v), 0) + 1
+    observations = [o for o in observations if o and "doc" in o]
     n_el = [len(o["doc"]["elems"]) for o in observations if o]
     return {"cases": len(scenarios), "by_source": kinds, "knobs": knobs, "max_elements": max(n_el or [0]),
             "float_literals": sum(len(o["flts"]) for o in observations if o),
             "fixtures": sorted({s["src"]["xmi"] for s in scenarios if s["src"]["kind"] == "fixture"})}
+
+
+# ---- JSON half of C05: a sub-suite with its own case type (harness/props/C05json.py, coq/CorrC05json.v) ----
+from harness.props import C05json  # noqa: E402
+SUBSUITES = {"json": C05json}
+
+
+def extra_checks(ctx):
+    from harness import core
+    return core.run_subsuite(C05json, ctx)
+
+
+_signature_xmi = signature
+
+
+def signature(sc, msg):  # core.match_known hands sub-suite scenarios ({"suite", "scenario"}) to this module's signature
+    return C05json.signature(sc["scenario"], msg) if set(sc) == {"suite", "scenario"} else _signature_xmi(sc, msg)
 
 
 MANIFEST = {
